@@ -132,6 +132,64 @@ theorem urlencoded_roundtrip_entry (cfg : Config) (fields : List (Str × Bytes))
 example : ∀ f ∈ [(([97, 32, 233] : Str), ([0, 255, 38, 61] : Bytes)), ([97, 32, 233], [])],
     f.1.all (· < 256) = true ∧ f.2.all (· < 256) = true := by decide
 
+/-! ### urlencoded forms with non-ASCII names sent as UTF-8 (known finding `urlencoded/lossy/non-ascii-name-utf8`) -/
+
+/-- the lossless clause for urlencoded forms whose names are arbitrary text, sent the standard way (percent-encoded UTF-8).
+    False (`urlencoded_utf8_roundtrip_refuted`): `parse_qs_bytes` reads names as latin-1. -/
+def urlencoded_utf8_roundtrip_full : Prop :=
+  ∀ (fields : List (Str × Bytes)), (∀ f ∈ fields, f.1.all Wire.isScalar = true ∧ f.2.all (· < 256) = true) →
+    parseQsBytes (Spec.encodeUrlencodedUtf8 fields) = Spec.expectedFields fields
+
+/-- what comes back instead: every name as the latin-1 reading of its UTF-8 bytes (values are recovered exactly) -/
+theorem urlencoded_utf8_names_mojibake (fields : List (Str × Bytes))
+    (hb : ∀ f ∈ fields, f.1.all Wire.isScalar = true ∧ f.2.all (· < 256) = true) :
+    parseQsBytes (Spec.encodeUrlencodedUtf8 fields) =
+      Spec.expectedFields (fields.map (fun (n, v) => (C43.utf8Enc n, v))) := by
+  unfold Spec.encodeUrlencodedUtf8
+  apply urlencoded_roundtrip
+  intro f hf
+  simp only [List.mem_map] at hf
+  obtain ⟨g, hg, rfl⟩ := hf
+  refine ⟨?_, (hb g hg).2⟩
+  rw [List.all_eq_true]
+  intro b hbm
+  simpa using R.utf8Enc_lt g.1 (hb g hg).1 b hbm
+
+/-- `urlencoded_utf8_roundtrip_partial`: with ASCII names (the decidable side condition) the form is recovered exactly -/
+theorem urlencoded_utf8_roundtrip_partial (fields : List (Str × Bytes))
+    (hb : ∀ f ∈ fields, f.1.all (· < 128) = true ∧ f.2.all (· < 256) = true) :
+    parseQsBytes (Spec.encodeUrlencodedUtf8 fields) = Spec.expectedFields fields := by
+  have hmap : fields.map (fun (n, v) => (C43.utf8Enc n, v)) = fields := by
+    refine (List.map_congr_left (g := id) ?_).trans (List.map_id fields)
+    intro f hf
+    obtain ⟨n, v⟩ := f
+    have h1 := (hb (n, v) hf).1
+    rw [List.all_eq_true] at h1
+    have : C43.utf8Enc n = n := utf8Enc_ascii n (fun c hc => by simpa using h1 c hc)
+    simp [this]
+  unfold Spec.encodeUrlencodedUtf8
+  rw [hmap]
+  apply urlencoded_roundtrip
+  intro f hf
+  refine ⟨?_, (hb f hf).2⟩
+  have h1 := (hb f hf).1
+  rw [List.all_eq_true] at h1 ⊢
+  intro c hc
+  have := h1 c hc
+  simp only [decide_eq_true_eq] at this ⊢
+  omega
+
+example : ∀ f ∈ [(([97, 32, 37] : Str), ([0, 255, 38, 61] : Bytes))], f.1.all (· < 128) = true ∧ f.2.all (· < 256) = true := by
+  decide
+
+/-- the single field `é=` (sent as `%C3%A9=`) comes back under the name `Ã©` -/
+theorem urlencoded_utf8_roundtrip_refuted : ¬ urlencoded_utf8_roundtrip_full := by
+  intro h
+  have h1 := h [([233], [])] (by decide)
+  rw [urlencoded_utf8_names_mojibake [([233], [])] (by decide)] at h1
+  revert h1
+  decide
+
 /-! ### multipart round trip -/
 
 /- `WellFormed cfg b parts` (the hypotheses of the lossless clause for the quoted-string form) is defined in
